@@ -425,11 +425,23 @@ impl Run {
             };
             let owner = Addr::unchecked(self.addrs[1].clone());
             let c = Addr::unchecked(self.addrs[0].clone());
-            guarded(|| app.execute_contract(owner, c, &node, &[]).map(|_| ()))
+            let dig = &mut self.dig;
+            guarded(|| {
+                app.execute_contract(owner, c, &node, &[]).map(|r| {
+                    hash_events(dig, &r.events);
+                })
+            })
         } else {
             let sender = Addr::unchecked(self.addrs[d].clone());
             let ms: Vec<CosmosMsg<SimMsg>> = msgs.into_iter().map(|(m, _)| m).collect();
-            guarded(|| app.execute_multi(sender, ms).map(|_| ()))
+            let dig = &mut self.dig;
+            guarded(|| {
+                app.execute_multi(sender, ms).map(|rs| {
+                    for r in rs {
+                        hash_events(dig, &r.events);
+                    }
+                })
+            })
         }
     }
 
@@ -902,6 +914,17 @@ impl Run {
 
     fn n_delegators(&self) -> usize {
         self.m.withdraw_to.len()
+    }
+}
+
+/// everything a response shows goes into the run digest (twin comparison)
+fn hash_events(dig: &mut Fnv, events: &[cosmwasm_std::Event]) {
+    for e in events {
+        dig.write_str(&e.ty);
+        for a in &e.attributes {
+            dig.write_str(&a.key);
+            dig.write_str(&a.value);
+        }
     }
 }
 
